@@ -33,4 +33,9 @@ pub assume_specification [i64::unsigned_abs] (x: i64) -> (r: u64)
     ensures r as int == (if x < 0 { -(x as int) } else { x as int });
 pub assume_specification [usize::saturating_add_signed] (x: usize, d: isize) -> (r: usize)
     ensures r as int == (if x + d < 0 { 0 } else if x + d > usize::MAX { usize::MAX as int } else { x + d });
+// rule R6: the text of error values / labels is dropped
+#[verifier::external_body]
+pub fn vx_opaque_string() -> (r: String) { String::new() }
+#[verifier::external_body]
+pub fn vx_io_error() -> (r: std::io::Error) { std::io::Error::new(std::io::ErrorKind::Other, "error") }
 // ---- end of prelude/std_specs.rs ----
